@@ -1934,6 +1934,10 @@ class Evaluator:
                 if fl is not None:
                     return fl
                 return fatom(attr, a)
+        if attr in ("zeros", "ones") and len(args) == 1 and attr == "zeros":
+            n_ = _as_rat(args[0])
+            if n_ is not None:
+                return ZerosV(n_)
         if attr == "sign" and len(args) == 1:
             a = _as_rat(args[0])
             if a is not None and a.is_const():
